@@ -284,6 +284,8 @@ pub struct PlainSys<O: PlainOracle> {
     pub noncontrib: Vec<(u8, u8, u8)>,
     pub report: Report,
     pub with_reset: bool,
+    pub deep_probes: bool,
+    pub followup_values: Vec<u8>,
     /// controller numbers for which some explored transition changed the state or reported
     pub reacted: Vec<AtomicBool>,
 }
@@ -311,6 +313,8 @@ impl<O: PlainOracle> PlainSys<O> {
             noncontrib: Vec::new(),
             report,
             with_reset: true,
+            deep_probes: true,
+            followup_values: vec![1],
             reacted: (0..128).map(|_| AtomicBool::new(false)).collect(),
         }
     }
@@ -320,6 +324,10 @@ impl<O: PlainOracle> PlainSys<O> {
     }
 
     fn do_cc(&self, s: &PState<O>, ctrl: u8, val: u8, expand: bool) -> Step<PState<O>> {
+        self.do_cc_depth(s, ctrl, val, expand, 0)
+    }
+
+    fn do_cc_depth(&self, s: &PState<O>, ctrl: u8, val: u8, expand: bool, depth: u8) -> Step<PState<O>> {
         let mut v = Vec::new();
         let mut sc = s.sc;
         let msg = cc(self.ch, ctrl, val);
@@ -354,6 +362,27 @@ impl<O: PlainOracle> PlainSys<O> {
         if self.report.repr {
             if let Some(d) = repr_divergence(&s.sc, &sc, &out, 0xB0 | self.ch, ctrl, val) {
                 v.push(self.vio("representation-matters", O::class_of_ctrl(ctrl), || format!("CC ch{} #{} ={}: {}", self.ch, ctrl, val, d)));
+            }
+        }
+        // second-step probing: a probe (not expanded) is followed by one more judged step for every
+        // contributing controller of the alphabet, so that behaviour depending on a STORED byte
+        // outside the expansion domain is seen one step later
+        if !expand && depth == 0 && self.deep_probes && v.is_empty() {
+            let mid = PState::<O> { sc, m: m2.clone() };
+            let mut seen = [false; 128];
+            for &(c2, _) in &self.alphabet {
+                if seen[c2 as usize] {
+                    continue;
+                }
+                seen[c2 as usize] = true;
+                for &v2 in &self.followup_values {
+                    let r2 = self.do_cc_depth(&mid, c2, v2, false, 1);
+                    for mut x in r2.violations {
+                        x.signature = format!("{}/second-step", x.signature);
+                        x.detail = format!("after the one-step probe CC#{} ={}, then CC#{} ={}: {}", ctrl, val, c2, v2, x.detail);
+                        v.push(x);
+                    }
+                }
             }
         }
         Step {
